@@ -129,3 +129,7 @@ impl<Controller: SourceController> PpsSourceTask<Controller> {
         )
     }
 }
+
+#[cfg(all(test, pendulum_project_ntpd_rs_verif))]
+#[path = "/verif/harness/ntpd/probe_pps.rs"]
+pub(crate) mod verif_probe;
